@@ -34,7 +34,16 @@ counterexample theorem.
 
 What is not modelled: the bitfield and the info bytes themselves (only `hasInfo`), `AddedAt`
 (see ResumeCodec), tracker URLs that `trackerManager.Get` rejects (they stay in the record but not in
-the live tracker set), records that fail to load (`invalidTorrentIDs`), DHT, RPC, `Move`.
+the live tracker set), DHT, RPC, `Move`.
+
+Records that are read but fail to load (`loadExistingTorrent` returns an error: `parseInfo` — broken
+info bytes, more pieces than `Config.MaxPieces` —, a bitfield of the wrong length, `GetStorage`,
+`newTorrent` for an info-hash that is not 20 bytes long): *which* records fail is an input of `reopen`
+(`bad`, like `Env` for an add).  Such a record stays in the bucket (`dead`), its id is appended to
+`invalidTorrentIDs` (`invalid`), no torrent is registered and — the `delete(availablePorts, port)` comes
+after the last failure point — its port stays free.  `CleanDatabase` (`clean`) deletes the buckets of the
+invalid ids.  The bucket of the bbolt file is `db ++ dead`: `db` holds the records of the registered
+torrents and of adds that have written, `dead` the rest.
 
 Core Lean only.
 -/
@@ -115,11 +124,16 @@ structure State where
   idx : List (String × String)
   db : List (String × Fields)
   pending : List Pending
+  /-- records of the torrents bucket that were read at the last `NewSession` but did not load -/
+  dead : List (String × Fields) := []
+  /-- `invalidTorrentIDs` -/
+  invalid : List String := []
   deriving Repr, DecidableEq, Inhabited
 
 /-- `NewSession` on an empty database: every port of `[lo, hi)` is free. -/
 def init (lo hi : Nat) : State :=
-  { lo := lo, hi := hi, free := List.range' lo (hi - lo), reg := [], idx := [], db := [], pending := [] }
+  { lo := lo, hi := hi, free := List.range' lo (hi - lo), reg := [], idx := [], db := [], pending := [],
+    dead := [], invalid := [] }
 
 /-- The configured port range `[PortBegin, PortEnd)`. -/
 def State.range (s : State) : List Nat := List.range' s.lo (s.hi - s.lo)
@@ -127,6 +141,9 @@ def State.range (s : State) : List Nat := List.range' s.lo (s.hi - s.lo)
 def State.regIds (s : State) : List String := s.reg.map (·.id)
 def State.pendIds (s : State) : List String := s.pending.map (·.id)
 def State.dbIds (s : State) : List String := s.db.map (·.1)
+def State.deadIds (s : State) : List String := s.dead.map (·.1)
+/-- The content of the torrents bucket: one sub-bucket per id. -/
+def State.bucket (s : State) : List (String × Fields) := s.db ++ s.dead
 
 /-- `m[id] = t` on a Go map. -/
 def regPut (reg : List Torrent) (t : Torrent) : List Torrent :=
@@ -181,7 +198,7 @@ def addBeginWith (checkPending : Bool) (s : State) (m : Meta) (o : Opts) (p : Na
         let q : Pending := ⟨gid, p, m, o, .reserved⟩
         ({ s1 with pending := q :: s1.pending }, .ok q)
     | none =>
-      if gen ∈ s1.regIds ∨ gen ∈ s1.pendIds ∨ gen ∈ s1.dbIds then (s, .error .badChoice)
+      if gen ∈ s1.regIds ∨ gen ∈ s1.pendIds ∨ gen ∈ s1.dbIds ∨ gen ∈ s1.deadIds then (s, .error .badChoice)
       else if stoFail then (s1.release p, .error .storage)
       else
         let q : Pending := ⟨gen, p, m, o, .reserved⟩
@@ -200,12 +217,15 @@ def addBuild (s : State) (q : Pending) (ok : Bool) : State × Except AddErr Pend
     ({ s with pending := q' :: s.pending.erase q }, .ok q')
   else ({ s with pending := s.pending.erase q, free := q.port :: s.free }, .error .build)
 
-/-- `resumer.Write`; on failure the torrent is closed and the port released. -/
+/-- `resumer.Write`; on failure the torrent is closed and the port released.  `Write` puts every key
+of the bucket, so a record of the same id that failed to load is replaced (its id stays in
+`invalidTorrentIDs`). -/
 def addWrite (s : State) (q : Pending) (ok : Bool) : State × Except AddErr Pending :=
   if q ∉ s.pending ∨ q.stage ≠ .built then (s, .error .notPending)
   else if ok then
     let q' := { q with stage := .written }
-    ({ s with pending := q' :: s.pending.erase q, db := dbPut s.db q.id (freshFields q.m q.o q.port) }, .ok q')
+    ({ s with pending := q' :: s.pending.erase q, db := dbPut s.db q.id (freshFields q.m q.o q.port),
+              dead := s.dead.filter (fun e => e.1 != q.id) }, .ok q')
   else ({ s with pending := s.pending.erase q, free := q.port :: s.free }, .error .write)
 
 /-- `insertTorrent` (second critical section). -/
@@ -296,9 +316,32 @@ def openOn (lo hi : Nat) (resume : Bool) (db : List (String × Fields)) : State 
   db.foldl (loadOne resume) { init lo hi with db := db }
 
 /-- `Close()` then `NewSession` with the same port range (`resume` = `Config.ResumeOnStartup`).
-`Close` writes the counters once more.  Defined only when no add is in flight. -/
-def reopen (s : State) (resume : Bool) : State :=
-  if s.pending ≠ [] then s else openOn s.lo s.hi resume (updateStats s).db
+`Close` writes the counters once more.  Defined only when no add is in flight.
+`bad` = the ids whose record fails to load in the new session (an input: damaged bytes, `MaxPieces`,
+storage).  `loadExistingTorrents` walks over every bucket: a failing one is appended to
+`invalidTorrentIDs` and otherwise left alone (its port is not taken: the `delete` comes after the
+last failure point of `loadExistingTorrent`), the others are loaded by `loadOne`. -/
+def reopen (s : State) (resume : Bool) (bad : List String) : State :=
+  if s.pending ≠ [] then s else
+  let bucket := (updateStats s).db ++ s.dead
+  let failed := bucket.filter (fun e => bad.contains e.1)
+  { openOn s.lo s.hi resume (bucket.filter (fun e => !bad.contains e.1)) with
+    dead := failed, invalid := failed.map (·.1) }
+
+/-- `CleanDatabase`: `DeleteBucket` for every invalid id in one transaction, then the list is
+emptied.  `false` = an id has no bucket (`ErrBucketNotFound`): the transaction is rolled back, nothing
+changes. -/
+def clean (s : State) : State × Bool :=
+  if s.invalid.all (fun id => s.dbIds.contains id || s.deadIds.contains id) then
+    ({ s with db := s.db.filter (fun e => !s.invalid.contains e.1),
+              dead := s.dead.filter (fun e => !s.invalid.contains e.1), invalid := [] }, true)
+  else (s, false)
+
+/-- Damage done to the file from outside while the session is closed, as far as it is visible in the
+fields of a record: the stored info-hash of a record that does not load is `ih` (19 bytes in the suite,
+which is what makes `newTorrent` fail). -/
+def tamper (s : State) (id ih : String) : State :=
+  { s with dead := dbModify s.dead id (fun r => { r with infoHash := ih }) }
 
 /-- The record `CompactDatabase` writes for a registered torrent (after the `fix:` commits): identity,
 options and counters come from the live torrent; tier list, web-seed list and the started flag are
@@ -340,8 +383,10 @@ inductive Op
   | addTracker (id uri : String)
   | bump (id : String) (d : Counters)
   | updateStats
-  | reopen (resume : Bool)
+  | reopen (resume : Bool) (bad : List String)
   | compactSwap (resume : Bool)
+  | clean
+  | tamper (id ih : String)
   deriving Repr, DecidableEq, Inhabited
 
 def step (s : State) : Op → State
@@ -356,10 +401,31 @@ def step (s : State) : Op → State
   | .addTracker id uri => addTracker s id uri
   | .bump id d => bump s id d
   | .updateStats => updateStats s
-  | .reopen r => reopen s r
+  | .reopen r bad => reopen s r bad
   | .compactSwap r => compactSwap s r
+  | .clean => (clean s).1
+  | .tamper id ih => tamper s id ih
 
 def run (s : State) (ops : List Op) : State := ops.foldl step s
+
+/-- The histories the C14 theorems are about.  Two things are excluded, because the code breaks the
+property there (findings F07, F08; counterexample theorems in `Props/C14`):
+
+* a record that failed to load loads at a later restart (its failure was transient: `MaxPieces` raised
+  again, storage back): its port was free in between and may have been given to another torrent — the
+  load does not look at `availablePorts`, two live torrents then share the port;
+* an add with an explicit id that is listed in `invalidTorrentIDs`: the id stays in the list, and a
+  later `CleanDatabase` deletes the record of the live torrent. -/
+def tame (s : State) : Op → Bool
+  | .reopen _ bad => s.dead.all fun e => bad.contains e.1
+  | .add _ o _ _ _ | .abegin _ o _ _ _ => match o.id with
+    | some id => !s.invalid.contains id
+    | none => true
+  | _ => true
+
+def tameRun (s : State) : List Op → Bool
+  | [] => true
+  | op :: ops => tame s op && tameRun (step s op) ops
 
 /-- The same machine with the pre-fix duplicate check (only `abegin` differs). -/
 def stepUnfixed (s : State) : Op → State
@@ -371,7 +437,8 @@ def runUnfixed (s : State) (ops : List Op) : State := ops.foldl stepUnfixed s
 /-! ### The property's predicates (executable: the same definitions are evaluated by the driver on the
 implementation's observations and are the conclusions of the theorems in `Props/C14`). -/
 
-/-- What can be seen of a session: free ports, live torrents, resume records, the info-hash index. -/
+/-- What can be seen of a session: free ports, live torrents, resume records (every sub-bucket of the
+torrents bucket), the info-hash index, the ids of the records that did not load. -/
 structure Obs where
   lo : Nat
   hi : Nat
@@ -379,9 +446,10 @@ structure Obs where
   live : List Torrent
   db : List (String × Fields)
   idx : List (String × String)
+  invalid : List String := []
   deriving Repr, DecidableEq, Inhabited
 
-def observe (s : State) : Obs := ⟨s.lo, s.hi, s.free, s.reg, s.db, s.idx⟩
+def observe (s : State) : Obs := ⟨s.lo, s.hi, s.free, s.reg, s.db ++ s.dead, s.idx, s.invalid⟩
 
 /-- Port conservation: the configured range is the disjoint union of the free ports and the ports of
 the live torrents, every owned port owned once. (`isPerm` = same multiset; the range has no duplicates.) -/
@@ -398,19 +466,31 @@ started (ResumeOnStartup off, or not yet resumed) but never the other way round.
 def describes (r : Fields) (t : Fields) : Bool :=
   decide ({ r with cnt := t.cnt, started := t.started } = t) && (!t.started || r.started)
 
-/-- The torrents in the session are exactly those recorded in the database. -/
+/-- The torrents in the session are exactly those recorded in the database, apart from the records
+that did not load (listed as invalid until `CleanDatabase` removes them). -/
 def registryEqDb (o : Obs) : Bool :=
-  (o.db.map (·.1)).isPerm (o.live.map (·.id)) &&
+  (o.db.map (·.1)).isPerm (o.live.map (·.id) ++ o.invalid.filter (fun i => !(o.live.map (·.id)).contains i)) &&
   o.live.all fun t => match dbGet o.db t.id with
     | some r => describes r t.f
     | none => false
 
-/-- `after` is what a restart of `before` must look like. -/
-def restartEquiv (resume : Bool) (before after : Obs) : Bool :=
-  (after.live.map (·.id)).isPerm (before.live.map (·.id)) &&
-  before.live.all fun t => match regGet after.live t.id, dbGet before.db t.id with
-    | some t', some r => decide (t'.f = { t.f with started := resume && r.started })
-    | _, _ => false
+/-- `after` is what a restart of `before` must look like when the records of the ids `bad` fail to
+load: the other torrents are back with the same fields; a torrent whose record failed is not
+registered, its id is listed as invalid, its record is still in the database and its port is free. -/
+def restartEquiv (resume : Bool) (bad : List String) (before after : Obs) : Bool :=
+  (after.live.map (·.id)).isPerm ((before.live.filter (fun t => !bad.contains t.id)).map (·.id)) &&
+  before.live.all fun t =>
+    if bad.contains t.id then
+      (regGet after.live t.id).isNone && after.invalid.contains t.id && (dbGet after.db t.id).isSome &&
+        after.free.contains t.f.port
+    else match regGet after.live t.id, dbGet before.db t.id with
+      | some t', some r => decide (t'.f = { t.f with started := resume && r.started })
+      | _, _ => false
+
+/-- A port of the range that is neither free nor owned by a live torrent (the oracle's diagnosis of a
+failed `portConservation`). -/
+def lostPorts (o : Obs) : List Nat :=
+  (List.range' o.lo (o.hi - o.lo)).filter fun p => !o.free.contains p && !(o.live.map (·.f.port)).contains p
 
 /-- `c` is what compacting `o` must produce: one record per live torrent with metadata, equal to the
 torrent's current record with the counters brought up to date. -/
